@@ -1175,6 +1175,12 @@ class TLSConnection(TLSRecordLayer):
                     AlertDescription.decrypt_error,
                     "TackExtension contains an invalid signature"):
                     yield result
+        ecpf_ext = serverHello.getExtension(ExtensionType.ec_point_formats)
+        if ecpf_ext and not ecpf_ext.formats:
+            for result in self._sendError(
+                    AlertDescription.decode_error,
+                    "Empty ec_point_formats extension in Server Hello"):
+                yield result
         if serverHello.next_protos and not clientHello.supports_npn:
             for result in self._sendError(\
                 AlertDescription.illegal_parameter,
